@@ -1040,6 +1040,9 @@ def run(ctx):
                 "z<id-like digits><k>, source_<n>, sink_<n>, <v>.0/<v>.1, <k>, <k>_expanded, numeric-looking strings); digraphs incl. ones with a strongly "
                 "connected part that no source reaches / that reaches no sink (gen.rand_digraph_free); every node of the s-t graph is queried, the two "
                 "synthetic ones included. "
+                "DAGs of the antichain / width streams also carry isolated nodes and additional starts / ends on inner nodes; width/antichain "
+                "histories = 3-8 interleaved get_width(ignore) / compute_max_edge_antichain(get_antichain, weight_function) calls on one stDAG object; "
+                "flow scale families: x2^-40, x2^-30, xFraction(1,10^12), mixed magnitudes 1 and 2^-40. "
                 "cases: random DAGs (gen.rand_dag, <= 7 nodes) and cyclic digraphs (gen.rand_cyclic, <= 9 nodes incl. source/sink) with integer "
                 "weights from {0, 1..9, 2^40 +- k}, some edges without the attribute, optional additional starts/ends; histories of 4-14 operations "
                 "over 1-3 graph objects; flows = superpositions of 0-4 source-to-sink paths (conserving; integer, dyadic k/8, or inexact floats that conserve exactly in float arithmetic: fan-out / fan-in trees with trunk = float sum of the branches, filtered superpositions) or arbitrary non-negative weights; antichain "
